@@ -79,21 +79,18 @@ func (h *NFSProcedureHandler) handleReaddir(body io.Reader, reply *RPCReply, aut
 
 	buf.Write(cookieVerf[:])
 
+	// count is the maximum size of READDIR3resok, i.e. of everything after
+	// the status word. Very small counts are raised to 256.
 	entryCount := 0
-	maxReplySize := int(count) - 100
-	if maxReplySize < 128 {
-		maxReplySize = 128
+	maxReplySize := int(count)
+	if maxReplySize < 256 {
+		maxReplySize = 256
 	}
 	reachedLimit := false
 
 	for i, entry := range entries {
 		if uint64(i) < cookie {
 			continue
-		}
-
-		if buf.Len() >= maxReplySize {
-			reachedLimit = true
-			break
 		}
 
 		// Skip entries with nil attrs
@@ -105,6 +102,23 @@ func (h *NFSProcedureHandler) handleReaddir(body io.Reader, reply *RPCReply, aut
 		fileId := entry.attrs.FileId
 		entry.mu.RUnlock()
 
+		// M1: Use path.Base() for name extraction
+		name := path.Base(entry.path)
+		if entry.path == "/" {
+			name = "/"
+		}
+
+		// entry3: value_follows + fileid + name + cookie; the list
+		// terminator and eof flag (8 bytes) still have to follow it.
+		entrySize := 4 + 8 + 4 + (len(name)+3)&^3 + 8
+		if buf.Len()-4+entrySize+8 > maxReplySize {
+			if entryCount == 0 {
+				return nfsErrorWithPostOp(reply, NFSERR_TOOSMALL), nil
+			}
+			reachedLimit = true
+			break
+		}
+
 		xdrEncodeUint32(&buf, 1)
 
 		// R4: Copy fileId under RLock
@@ -112,11 +126,6 @@ func (h *NFSProcedureHandler) handleReaddir(body io.Reader, reply *RPCReply, aut
 			return nfsErrorWithPostOp(reply, NFSERR_IO), nil
 		}
 
-		// M1: Use path.Base() for name extraction
-		name := path.Base(entry.path)
-		if entry.path == "/" {
-			name = "/"
-		}
 		if err := xdrEncodeString(&buf, name); err != nil {
 			return nfsErrorWithPostOp(reply, NFSERR_IO), nil
 		}
@@ -209,9 +218,11 @@ func (h *NFSProcedureHandler) handleReaddirplus(body io.Reader, reply *RPCReply,
 
 	buf.Write(cookieVerf[:])
 
+	// maxcount is the maximum size of READDIRPLUS3resok, i.e. of everything
+	// after the status word. Very small values are raised to 256.
 	entryCount := 0
 	reachedLimit := false
-	maxReplySize := int(maxCount) - 200
+	maxReplySize := int(maxCount)
 	if maxReplySize < 256 {
 		maxReplySize = 256
 	}
@@ -219,11 +230,6 @@ func (h *NFSProcedureHandler) handleReaddirplus(body io.Reader, reply *RPCReply,
 	for i, entry := range entries {
 		if uint64(i) < cookie {
 			continue
-		}
-
-		if buf.Len() >= maxReplySize && entryCount > 0 {
-			reachedLimit = true
-			break
 		}
 
 		// Skip entries with nil attrs
@@ -235,6 +241,24 @@ func (h *NFSProcedureHandler) handleReaddirplus(body io.Reader, reply *RPCReply,
 		entryAttrsCopy := *entry.attrs
 		entry.mu.RUnlock()
 
+		// M1: Use path.Base() for name extraction
+		name := path.Base(entry.path)
+		if entry.path == "/" {
+			name = "/"
+		}
+
+		// entryplus3: value_follows + fileid + name + cookie +
+		// post_op_attr (4+84) + post_op_fh3 (4+4+8); the list terminator
+		// and eof flag (8 bytes) still have to follow it.
+		entrySize := 4 + 8 + 4 + (len(name)+3)&^3 + 8 + 88 + 16
+		if buf.Len()-4+entrySize+8 > maxReplySize {
+			if entryCount == 0 {
+				return nfsErrorWithPostOp(reply, NFSERR_TOOSMALL), nil
+			}
+			reachedLimit = true
+			break
+		}
+
 		xdrEncodeUint32(&buf, 1)
 
 		entryCookie := uint64(i + 1)
@@ -243,11 +267,6 @@ func (h *NFSProcedureHandler) handleReaddirplus(body io.Reader, reply *RPCReply,
 			return nfsErrorWithPostOp(reply, NFSERR_IO), nil
 		}
 
-		// M1: Use path.Base() for name extraction
-		name := path.Base(entry.path)
-		if entry.path == "/" {
-			name = "/"
-		}
 		if err := xdrEncodeString(&buf, name); err != nil {
 			return nfsErrorWithPostOp(reply, NFSERR_IO), nil
 		}
